@@ -18,7 +18,9 @@
      Generated/JsGenTrace.v is the same generator (derived mechanically from
      the text of Model/JsGen.v) over a state that also carries a log: one entry
      per look at a tree node (JRdAst pos), per read of the generator's record
-     (JRdOwn), per update of it (JWrOwn).  [gen_file_traced] is that generator;
+     (JRdOwn), per update of it (JWrOwn).  [gen_file_traced] is that generator
+     (its result IS gen_file's: Generated/JsGenSim.v, one simulation lemma per
+     definition; the log is kept on failing generations too);
      [cjsgen_fine_prog] replays its log access by access.
 
    * Bundle.Compile of an independent bundle builds a registry that the
@@ -38,19 +40,18 @@ Open Scope N_scope.
 
 (* ---------------- the traced generator ---------------- *)
 
-Definition tst := (jstate * list jacc)%type.                 (* the generator's record, the log (latest first) *)
-Definition t_get (s : tst) : jstate := fst s.
-Definition t_put (x : jstate) (s : tst) : tst := (x, snd s).
-Definition t_tick (a : jacc) (s : tst) : tst := (fst s, a :: snd s).
+(* the generator's record and the log (latest first), as a lens for Generated/JsGenTrace.v *)
+Definition tst := (jstate * list jacc)%type.
+Definition c09_tlens : jlens :=
+  {| l_St := tst;
+     l_get := fun s => fst s;
+     l_put := fun x s => (x, snd s);
+     l_tick := fun a s => (fst s, a :: snd s) |}.
 
-(* result and access trace of soyjs.Write on one file.  The generator's monad drops the state when it
-   fails, so a failing generation has no recorded trace (None). *)
-Definition gen_file_traced (o : jopts) (fuel : nat) (name : bstr) (body : list node) : outcome (list chunk) * option (list jacc) :=
-  match JT.gen_file tst t_get t_put t_tick o (JsGen.jinit_state, []) fuel name body with
-  | Ok (cs, s) => (Ok cs, Some (rev (snd s)))
-  | Err e => (Err e, None) | Crash e => (Crash e, None) | Diverge => (Diverge, None)
-  | OutOfFuel => (OutOfFuel, None) | OutOfModel => (OutOfModel, None)
-  end.
+(* result and access trace of soyjs.Write on one file.  The instrumented generator keeps its state when it
+   fails, so a failing generation has its trace too: the accesses up to the failure. *)
+Definition gen_file_traced (o : jopts) (fuel : nat) (name : bstr) (body : list node) : outcome (list chunk) * list jacc :=
+  let '(r, s) := JT.gen_file c09_tlens o (JsGen.jinit_state, []) fuel name body in (r, rev (snd s)).
 
 (* what the log may contain, as a classification: a write to shared memory is not among the
    generator's accesses *)
@@ -109,7 +110,7 @@ Definition cjsgen_fine_prog (i : nat) (o : jopts) (fuel : nat) (file : nat) : cp
         match nth_error fs file with
         | Some f =>
             let '(r, tr) := gen_file_traced o fuel (jf_name f) (jf_body f) in
-            replay i (match tr with Some t => t | None => [] end) (Done (CRJs (Some r)))
+            replay i tr (Done (CRJs (Some r)))
         | None => Done (CRJs None)
         end
     | _ => Done (CRJs None)
